@@ -109,6 +109,37 @@
 //     errors), at most one per provoking operation; every other op and every
 //     Collect must succeed. A panic escaping from any op is caught per op and
 //     reported as the first violation.
+//   - Instruments handed to RegisterCallback: any subset (also the empty one)
+//     of the observable instruments of the meter, where an instrument is either
+//     a placeholder created through the global meter handle or (op.Nat) an
+//     instrument obtained directly from the Meter of the same scope of the SDK
+//     that is going to be installed (legal: the placeholder passes foreign
+//     observables through unchanged and the SDK accepts its own instruments).
+//     In half of the programs one scope is "bare": its placeholder meter never
+//     owns a placeholder instrument, only such SDK instruments and callbacks.
+//     A callback registered WITHOUT instruments is never invoked by the SDK
+//     (documented no-op), so nothing is asserted about its invocations.
+//   - "registered with the SDK exactly once unless it had been unregistered" is
+//     also decided directly: in 70% of the programs the installed MeterProvider
+//     is a wrapper of the harness (the refusing one, or one that only counts)
+//     which attributes every RegisterCallback arriving at the SDK's Meter to the
+//     program's callback (it calls the function once with a probe context; the
+//     harness's callbacks answer with their id and do nothing else) and counts
+//     the Unregister calls arriving at the SDK's Registration. At the end of
+//     the program: never more than one registration per callback; exactly one
+//     when no Unregister was issued before SetMeterProvider returned; none when
+//     an Unregister had returned before SetMeterProvider was issued; and when
+//     it is registered and an Unregister of it returned, an Unregister reached
+//     the SDK ("callback registrations ... start forwarding").
+//   - Spans are started with generated options (span kind, an attribute) and a
+//     third of them start a child span inside, with the context Start returned,
+//     through any tracer handle; one span in six also yields a tracer from its
+//     TracerProvider() (not while auto-instrumentation may be attached). For a
+//     span started after SetTracerProvider returned, "reaches the SDK" is read
+//     as: the SDK records it with that kind, that attribute and the outer
+//     span's span context as its parent (none for a background context).
+//   - Two goroutines of one phase may Unregister the same Registration
+//     concurrently (a third of the programs), also while SetMeterProvider runs.
 //   - Deadlock freedom: the program simply runs to completion; a hang is turned
 //     into a violation by the vk watchdog (goroutine dump) and the driver.
 package c16
@@ -164,13 +195,20 @@ type Op struct {
 	Ref bool   `json:"ref,omitempty"` // inst: the name carries the mark the refusing wrapper provider (Case.Wrap) answers with (nil, err)
 	Sv  int    `json:"sv,omitempty"`  // rec: special value class (0 = the coded value +-4^Bit); recorded with an attribute of its own (sv=Bit)
 	Z   bool   `json:"z,omitempty"`   // reg: the callback also observes 0 (attributes cb, z) on every instrument
+	Kn  int    `json:"kn,omitempty"`  // span: 1..5 = started with trace.WithSpanKind(kind Kn)
+	At  bool   `json:"at,omitempty"`  // span: started with trace.WithAttributes(sa=<span id>)
+	In  int    `json:"in,omitempty"`  // span: a child span (id CSp) is started inside it, with the context Start returned, through tracer slot In-1
+	CSp int    `json:"csp,omitempty"` // span: id of the child
+	TD  int    `json:"td,omitempty"`  // span: tracer slot TD-1 is obtained (scope S) from the span's TracerProvider()
+	Nat bool   `json:"nat,omitempty"` // inst (observable kinds): created directly on the Meter of the SDK that is (going to be) installed, same scope as meter slot U, not through the global API
 }
 
 // Case is one generated program.
 type Case struct {
 	Phases  [][][]Op `json:"phases"`
-	Readers int      `json:"readers"` // ManualReaders of the installed MeterProvider (1-3)
-	Wrap    bool     `json:"wrap"`    // the installed MeterProvider is a wrapper of the harness that refuses marked instruments with (nil, err)
+	Readers int      `json:"readers"`            // ManualReaders of the installed MeterProvider (1-3)
+	Wrap    bool     `json:"wrap"`               // the installed MeterProvider is a wrapper of the harness that refuses marked instruments with (nil, err)
+	Rec     bool     `json:"rec,omitempty"`      // the installed MeterProvider is a wrapper of the harness that only counts the RegisterCallback / Unregister calls reaching the SDK (Wrap counts too)
 	AutoOn  bool     `json:"auto_on,omitempty"`  // the auto-instrumentation flag (global.autoInstEnabled) is on when the program starts
 	AutoOff int      `json:"auto_off,omitempty"` // ... and is switched off at the barrier before this phase (>= number of phases: never)
 	Runs    int      `json:"runs"`
@@ -264,6 +302,9 @@ func instName(op Op) string {
 	}
 	if op.OC {
 		return fmt.Sprintf("%s_oc%d", kinds[op.Kd].short, op.CB)
+	}
+	if op.Nat {
+		return fmt.Sprintf("%s_nat%d", kinds[op.Kd].short, op.N)
 	}
 	return fmt.Sprintf("%s_%d", kinds[op.Kd].short, op.N)
 }
@@ -369,110 +410,144 @@ var (
 
 type refProvider struct {
 	embedded.MeterProvider
-	inner metric.MeterProvider
+	inner  metric.MeterProvider
+	refuse bool // answer marked instruments with (nil, err)
+
+	mu     sync.Mutex
+	regs   map[int]int // callback id -> RegisterCallback calls that reached the SDK meter and succeeded
+	unregs map[int]int // callback id -> Unregister calls that reached the SDK's Registration
 }
 
 func (p *refProvider) Meter(name string, opts ...metric.MeterOption) metric.Meter {
-	return &refMeter{Meter: p.inner.Meter(name, opts...)}
+	return &refMeter{Meter: p.inner.Meter(name, opts...), p: p}
 }
 
-type refMeter struct{ metric.Meter }
+func (p *refProvider) counts(cb int) (regs, unregs int) {
+	p.mu.Lock()
+	defer p.mu.Unlock()
+	return p.regs[cb], p.unregs[cb]
+}
 
-func refusedName(n string) bool { return strings.HasSuffix(n, refusedMark) }
+type refMeter struct {
+	metric.Meter
+	p *refProvider
+}
+
+// probeKey marks the context with which the counting wrapper asks a callback
+// of the harness for its id (the callback writes it into the *int and returns
+// without observing): that is how a registration arriving at the SDK is
+// attributed to the RegisterCallback op of the program it stems from.
+type probeKey struct{}
+
+type refReg struct {
+	embedded.Registration
+	inner metric.Registration
+	p     *refProvider
+	cb    int
+}
+
+func (r *refReg) Unregister() error {
+	r.p.mu.Lock()
+	r.p.unregs[r.cb]++
+	r.p.mu.Unlock()
+	return r.inner.Unregister()
+}
+
+func (m *refMeter) refusedName(n string) bool { return m.p.refuse && strings.HasSuffix(n, refusedMark) }
 
 func (m *refMeter) Int64Counter(n string, o ...metric.Int64CounterOption) (metric.Int64Counter, error) {
-	if refusedName(n) {
+	if m.refusedName(n) {
 		return nil, errRefused
 	}
 	return m.Meter.Int64Counter(n, o...)
 }
 
 func (m *refMeter) Int64UpDownCounter(n string, o ...metric.Int64UpDownCounterOption) (metric.Int64UpDownCounter, error) {
-	if refusedName(n) {
+	if m.refusedName(n) {
 		return nil, errRefused
 	}
 	return m.Meter.Int64UpDownCounter(n, o...)
 }
 
 func (m *refMeter) Int64Histogram(n string, o ...metric.Int64HistogramOption) (metric.Int64Histogram, error) {
-	if refusedName(n) {
+	if m.refusedName(n) {
 		return nil, errRefused
 	}
 	return m.Meter.Int64Histogram(n, o...)
 }
 
 func (m *refMeter) Int64Gauge(n string, o ...metric.Int64GaugeOption) (metric.Int64Gauge, error) {
-	if refusedName(n) {
+	if m.refusedName(n) {
 		return nil, errRefused
 	}
 	return m.Meter.Int64Gauge(n, o...)
 }
 
 func (m *refMeter) Int64ObservableCounter(n string, o ...metric.Int64ObservableCounterOption) (metric.Int64ObservableCounter, error) {
-	if refusedName(n) {
+	if m.refusedName(n) {
 		return nil, errRefused
 	}
 	return m.Meter.Int64ObservableCounter(n, o...)
 }
 
 func (m *refMeter) Int64ObservableUpDownCounter(n string, o ...metric.Int64ObservableUpDownCounterOption) (metric.Int64ObservableUpDownCounter, error) {
-	if refusedName(n) {
+	if m.refusedName(n) {
 		return nil, errRefused
 	}
 	return m.Meter.Int64ObservableUpDownCounter(n, o...)
 }
 
 func (m *refMeter) Int64ObservableGauge(n string, o ...metric.Int64ObservableGaugeOption) (metric.Int64ObservableGauge, error) {
-	if refusedName(n) {
+	if m.refusedName(n) {
 		return nil, errRefused
 	}
 	return m.Meter.Int64ObservableGauge(n, o...)
 }
 
 func (m *refMeter) Float64Counter(n string, o ...metric.Float64CounterOption) (metric.Float64Counter, error) {
-	if refusedName(n) {
+	if m.refusedName(n) {
 		return nil, errRefused
 	}
 	return m.Meter.Float64Counter(n, o...)
 }
 
 func (m *refMeter) Float64UpDownCounter(n string, o ...metric.Float64UpDownCounterOption) (metric.Float64UpDownCounter, error) {
-	if refusedName(n) {
+	if m.refusedName(n) {
 		return nil, errRefused
 	}
 	return m.Meter.Float64UpDownCounter(n, o...)
 }
 
 func (m *refMeter) Float64Histogram(n string, o ...metric.Float64HistogramOption) (metric.Float64Histogram, error) {
-	if refusedName(n) {
+	if m.refusedName(n) {
 		return nil, errRefused
 	}
 	return m.Meter.Float64Histogram(n, o...)
 }
 
 func (m *refMeter) Float64Gauge(n string, o ...metric.Float64GaugeOption) (metric.Float64Gauge, error) {
-	if refusedName(n) {
+	if m.refusedName(n) {
 		return nil, errRefused
 	}
 	return m.Meter.Float64Gauge(n, o...)
 }
 
 func (m *refMeter) Float64ObservableCounter(n string, o ...metric.Float64ObservableCounterOption) (metric.Float64ObservableCounter, error) {
-	if refusedName(n) {
+	if m.refusedName(n) {
 		return nil, errRefused
 	}
 	return m.Meter.Float64ObservableCounter(n, o...)
 }
 
 func (m *refMeter) Float64ObservableUpDownCounter(n string, o ...metric.Float64ObservableUpDownCounterOption) (metric.Float64ObservableUpDownCounter, error) {
-	if refusedName(n) {
+	if m.refusedName(n) {
 		return nil, errRefused
 	}
 	return m.Meter.Float64ObservableUpDownCounter(n, o...)
 }
 
 func (m *refMeter) Float64ObservableGauge(n string, o ...metric.Float64ObservableGaugeOption) (metric.Float64ObservableGauge, error) {
-	if refusedName(n) {
+	if m.refusedName(n) {
 		return nil, errRefused
 	}
 	return m.Meter.Float64ObservableGauge(n, o...)
@@ -484,7 +559,25 @@ func (m *refMeter) RegisterCallback(f metric.Callback, insts ...metric.Observabl
 			return nil, errRefusedCB
 		}
 	}
-	return m.Meter.RegisterCallback(f, insts...)
+	id := -1
+	_ = f(context.WithValue(context.Background(), probeKey{}, &id), nil)
+	reg, err := m.Meter.RegisterCallback(f, insts...)
+	if err != nil || reg == nil {
+		return reg, err
+	}
+	m.p.mu.Lock()
+	m.p.regs[id]++
+	m.p.mu.Unlock()
+	return &refReg{inner: reg, p: m.p, cb: id}, nil
+}
+
+// probed answers the counting wrapper's question (see probeKey).
+func probed(ctx context.Context, cb int) bool {
+	if p, ok := ctx.Value(probeKey{}).(*int); ok {
+		*p = cb
+		return true
+	}
+	return false
 }
 
 func obsValue(cb, collect int) int64 { return int64(cb+1)*1000 + int64(collect) + 1 }
@@ -495,8 +588,12 @@ func pow4(k int) int64 { return int64(1) << (2 * uint(k)) }
 // recorders
 
 type spanSeen struct {
-	scope int
-	at    int64
+	scope  int
+	at     int64
+	kind   trace.SpanKind
+	sa     int64 // value of attribute "sa", -1 when absent
+	sc     trace.SpanContext
+	parent trace.SpanContext
 }
 
 type recSP struct {
@@ -515,7 +612,13 @@ func (p *recSP) OnStart(_ context.Context, s sdktrace.ReadWriteSpan) {
 func (p *recSP) OnEnd(s sdktrace.ReadOnlySpan) {
 	sc := s.InstrumentationScope()
 	p.mu.Lock()
-	p.ended[s.Name()] = append(p.ended[s.Name()], spanSeen{scopeIndex(sc.Name, sc.Version, sc.SchemaURL, sc.Attributes), p.clock.Tick()})
+	sa := int64(-1)
+	for _, kv := range s.Attributes() {
+		if kv.Key == "sa" {
+			sa = kv.Value.AsInt64()
+		}
+	}
+	p.ended[s.Name()] = append(p.ended[s.Name()], spanSeen{scopeIndex(sc.Name, sc.Version, sc.SchemaURL, sc.Attributes), p.clock.Tick(), s.SpanKind(), sa, s.SpanContext(), s.Parent()})
 	p.mu.Unlock()
 }
 func (p *recSP) Shutdown(context.Context) error   { return nil }
@@ -545,6 +648,7 @@ type opRec struct {
 	err        error
 	note       string
 	panicked   string
+	outer      trace.SpanContext // span: what the outer span's SpanContext() returned
 }
 
 type collKey struct{}
@@ -651,8 +755,7 @@ func measKey(op Op) string {
 	return k
 }
 
-func (w *world) createInst(op Op) (any, error) {
-	m := w.meters[op.U]
+func (w *world) createInst(m metric.Meter, op Op) (any, error) {
 	name := instName(op)
 	cbi := func(ctx context.Context, o metric.Int64Observer) error {
 		j := w.invoked(ctx, op.CB)
@@ -740,6 +843,17 @@ func (w *world) record(h any, kd int, op Op) {
 	}
 }
 
+func spanOpts(kn int, at bool, id int) []trace.SpanStartOption {
+	var o []trace.SpanStartOption
+	if kn >= 1 && kn <= 5 {
+		o = append(o, trace.WithSpanKind(trace.SpanKind(kn)))
+	}
+	if at {
+		o = append(o, trace.WithAttributes(attribute.Int("sa", id)))
+	}
+	return o
+}
+
 func maxSlot(n *int, d int) {
 	if d+1 > *n {
 		*n = d + 1
@@ -785,8 +899,10 @@ func runOnce(c Case) ([]vk.Violation, map[string]bool) {
 	w.rdMu = make([]sync.Mutex, nReaders)
 	w.mp = sdkmetric.NewMeterProvider(mpOpts...)
 	w.install = w.mp
-	if c.Wrap {
-		w.install = &refProvider{inner: w.mp}
+	var counting *refProvider
+	if c.Wrap || c.Rec {
+		counting = &refProvider{inner: w.mp, refuse: c.Wrap, regs: map[int]int{}, unregs: map[int]int{}}
+		w.install = counting
 	}
 	rejected := func(op Op) bool { return op.Bad != 0 || (c.Wrap && op.Ref) }
 	w.sp = &recSP{clock: clock, ended: map[string][]spanSeen{}, start: map[string]int{}}
@@ -822,6 +938,10 @@ func runOnce(c Case) ([]vk.Violation, map[string]bool) {
 			maxSlot(&nMeter, op.D)
 		case "tracer":
 			maxSlot(&nTracer, op.D)
+		case "span":
+			if op.TD > 0 {
+				maxSlot(&nTracer, op.TD-1)
+			}
 		case "inst":
 			maxSlot(&nInst, op.D)
 			if op.OC {
@@ -867,6 +987,14 @@ func runOnce(c Case) ([]vk.Violation, map[string]bool) {
 				return
 			}
 			tracerScope[op.D], tracerPhase[op.D] = op.S, ph
+		case "span":
+			if op.TD > 0 {
+				if op.S < 0 || op.S >= len(scopes) {
+					valid = false
+					return
+				}
+				tracerScope[op.TD-1], tracerPhase[op.TD-1] = op.S, ph
+			}
 		case "prop":
 			propPhase[op.D] = ph
 		}
@@ -874,7 +1002,7 @@ func runOnce(c Case) ([]vk.Violation, map[string]bool) {
 	each(func(ph, g, i int, op Op) {
 		switch op.K {
 		case "inst":
-			if op.U < 0 || op.U >= nMeter || op.Kd < 0 || op.Kd >= len(kinds) {
+			if op.U < 0 || op.U >= nMeter || op.Kd < 0 || op.Kd >= len(kinds) || (op.Nat && (!kinds[op.Kd].obs || op.OC || op.Bad != 0 || op.Ref)) {
 				valid = false
 				return
 			}
@@ -901,7 +1029,7 @@ func runOnce(c Case) ([]vk.Violation, map[string]bool) {
 					valid = false
 				}
 			}
-			if op.U < 0 || op.U >= nMeter || len(op.Is) == 0 {
+			if op.U < 0 || op.U >= nMeter {
 				valid = false
 			}
 			if valid {
@@ -916,7 +1044,7 @@ func runOnce(c Case) ([]vk.Violation, map[string]bool) {
 				valid = false
 			}
 		case "span":
-			if op.U < 0 || op.U >= nTracer {
+			if op.U < 0 || op.U >= nTracer || op.In < 0 || op.In > nTracer {
 				valid = false
 			}
 		case "inject":
@@ -988,7 +1116,13 @@ func runOnce(c Case) ([]vk.Violation, map[string]bool) {
 				r.skipped = true
 				break
 			}
-			h, err := w.createInst(op)
+			m := w.meters[op.U]
+			if op.Nat {
+				// directly on the SDK that is (going to be) installed
+				sc := scopes[meterScope[op.U]]
+				m = w.mp.Meter(sc.name, meterOpts(sc)...)
+			}
+			h, err := w.createInst(m, op)
 			r.err = err
 			if err == nil {
 				w.insts[op.D] = h
@@ -1001,8 +1135,20 @@ func runOnce(c Case) ([]vk.Violation, map[string]bool) {
 			}
 		case "span":
 			if tr := w.tracers[op.U]; tr != nil {
-				_, sp := tr.Start(ctx, fmt.Sprintf("sp%d", op.Sp))
+				ctx2, sp := tr.Start(ctx, fmt.Sprintf("sp%d", op.Sp), spanOpts(op.Kn, op.At, op.Sp)...)
 				r.note = fmt.Sprintf("recording=%v", sp.IsRecording())
+				r.outer = sp.SpanContext()
+				if op.TD > 0 {
+					sc := scopes[op.S]
+					w.tracers[op.TD-1] = sp.TracerProvider().Tracer(sc.name, tracerOpts(sc)...)
+				}
+				if op.In > 0 {
+					if tr2 := w.tracers[op.In-1]; tr2 != nil {
+						_, ch := tr2.Start(ctx2, fmt.Sprintf("sp%d", op.CSp), spanOpts(op.Kn, op.At, op.CSp)...)
+						ch.End()
+						r.note += " child started"
+					}
+				}
 				sp.End()
 			} else {
 				r.skipped = true
@@ -1034,6 +1180,9 @@ func runOnce(c Case) ([]vk.Violation, map[string]bool) {
 			cb := op.CB
 			delay, zero := op.Y, op.Z
 			f := func(ctx context.Context, o metric.Observer) error {
+				if probed(ctx, cb) {
+					return nil
+				}
 				j := w.invoked(ctx, cb)
 				v := obsValue(cb, j)
 				vk.Perturb(delay) // lets the collections of other readers get into the same callback
@@ -1411,6 +1560,33 @@ func runOnce(c Case) ([]vk.Violation, map[string]bool) {
 		return set, true
 	}
 
+	// unregWindow: us = the instant the first Unregister of the callback was
+	// issued, ue = the instant from which it is certainly unregistered (never
+	// when no Unregister completed).
+	unregWindow := func(cb cbMeta) (us, ue int64) {
+		us, ue = never, never
+		minEnd := never
+		for _, u := range cb.unregs {
+			if u.done && !u.skipped {
+				if u.start < us {
+					us = u.start
+				}
+				if u.end < minEnd {
+					minEnd = u.end
+				}
+			}
+		}
+		if minEnd != never {
+			ue = 0
+			for _, u := range cb.unregs {
+				if u.done && !u.skipped && u.start < minEnd && u.end > ue {
+					ue = u.end
+				}
+			}
+		}
+		return
+	}
+
 	attrKeys := []string{"", "a=1;"}
 	for _, col := range w.colls {
 		cl := fmt.Sprintf("%d (reader %d)", col.idx, col.reader)
@@ -1615,26 +1791,7 @@ func runOnce(c Case) ([]vk.Violation, map[string]bool) {
 			if mpRet > active {
 				active = mpRet
 			}
-			us, minEnd := never, never
-			for _, u := range cb.unregs {
-				if u.done && !u.skipped {
-					if u.start < us {
-						us = u.start
-					}
-					if u.end < minEnd {
-						minEnd = u.end
-					}
-				}
-			}
-			ue := never
-			if minEnd != never {
-				ue = 0
-				for _, u := range cb.unregs {
-					if u.done && !u.skipped && u.start < minEnd && u.end > ue {
-						ue = u.end
-					}
-				}
-			}
+			us, ue := unregWindow(cb)
 			what := "callback"
 			if cb.opt {
 				what = "instrument-option callback"
@@ -1642,6 +1799,9 @@ func runOnce(c Case) ([]vk.Violation, map[string]bool) {
 			switch {
 			case n > 1:
 				bad("callback_ran_twice", "Collect #%s (t=%d..%d): %s %d ran %d times in one collection (registered t=%d..%d, SetMeterProvider returned t=%d)", cl, col.start, col.end, what, k, n, cb.reg.start, cb.reg.end, mpRet)
+			case len(cb.insts) == 0:
+				// a callback registered without instruments: the SDK has nothing
+				// to call it for; only the registration count is checked (below)
 			case active < col.start && us > col.end && n != 1:
 				bad("callback_not_run", "Collect #%s (t=%d..%d): %s %d did not run although its registration (t=%d..%d) and SetMeterProvider (returned t=%d) had completed before and no Unregister was issued before the collection ended", cl, col.start, col.end, what, k, cb.reg.start, cb.reg.end, mpRet)
 			case ue < col.start && n != 0:
@@ -1684,6 +1844,40 @@ func runOnce(c Case) ([]vk.Violation, map[string]bool) {
 		}
 	}
 
+	// ---- registrations that reached the SDK (counting wrapper installed) ----
+	// "each previously registered callback is registered with the SDK exactly
+	// once unless it had been unregistered"; "callback registrations obtained
+	// before an SDK is installed start forwarding".
+	if counting != nil && ipMP >= 0 {
+		classes["installed_provider_counts_registrations"] = true
+		for k := range cm {
+			cb := cm[k]
+			if !cb.defined || cb.opt || !cb.reg.done || cb.reg.skipped || cb.reg.err != nil || cb.tainted {
+				continue
+			}
+			regs, unregs := counting.counts(k)
+			us, ue := unregWindow(cb)
+			pre := cb.reg.end < mpIss
+			if len(cb.insts) == 0 {
+				classes["callback_without_instruments:registration_counted"] = true
+			}
+			switch {
+			case regs > 1:
+				bad("callback_registered_twice", "callback %d (RegisterCallback t=%d..%d, SetMeterProvider t=%d..%d) was registered with the installed SDK %d times", k, cb.reg.start, cb.reg.end, mpIss, mpRet, regs)
+			case us > mpRet && regs != 1:
+				bad("callback_not_registered", "callback %d (RegisterCallback t=%d..%d through meter handle %d, instruments %v; no Unregister issued before SetMeterProvider returned at t=%d) was never registered with the installed SDK's Meter", k, cb.reg.start, cb.reg.end, cmMeter(c, k), cb.insts, mpRet)
+			case pre && ue < mpIss && regs != 0:
+				bad("unregistered_callback_registered", "callback %d was unregistered (t=%d) before SetMeterProvider was issued (t=%d) but was registered with the installed SDK", k, ue, mpIss)
+			}
+			if regs == 1 && ue != never && unregs == 0 {
+				bad("unregister_not_forwarded", "callback %d is registered with the installed SDK and its Unregister returned (t=%d, SetMeterProvider returned t=%d), but no Unregister reached the SDK's registration", k, ue, mpRet)
+			}
+			if pre && regs == 1 {
+				classes["pre_install_callback_registered_with_SDK_exactly_once(counted)"] = true
+			}
+		}
+	}
+
 	// ---- spans ----
 	w.sp.mu.Lock()
 	ended := map[string][]spanSeen{}
@@ -1692,27 +1886,58 @@ func runOnce(c Case) ([]vk.Violation, map[string]bool) {
 	}
 	w.sp.mu.Unlock()
 	known := map[string]bool{}
-	each(func(ph, g, i int, op Op) {
-		r := recs[ph][g][i]
-		if op.K != "span" || !r.done || r.skipped {
-			return
-		}
-		name := fmt.Sprintf("sp%d", op.Sp)
+	checkSpan := func(ph int, op Op, r opRec, id, trSlot int, child bool) {
+		name := fmt.Sprintf("sp%d", id)
 		known[name] = true
 		seen := ended[name]
 		switch {
 		case len(seen) > 1:
 			bad("span_recorded_twice", "span %s reached the SDK span processor %d times", name, len(seen))
 		case len(seen) == 0 && r.start > tpRet:
-			bad("span_lost", "span %s (started t=%d in phase %d through tracer handle %d obtained in phase %d) never reached the SDK although SetTracerProvider had returned at t=%d (%s)", name, r.start, ph, op.U, tracerPhase[op.U], tpRet, r.note)
+			bad("span_lost", "span %s (started t=%d in phase %d through tracer handle %d obtained in phase %d; child of another span: %v) never reached the SDK although SetTracerProvider had returned at t=%d (%s)", name, r.start, ph, trSlot, tracerPhase[trSlot], child, tpRet, r.note)
 		case len(seen) == 1 && r.end < tpIss:
 			bad("span_before_install_recorded", "span %s ended (t=%d) before SetTracerProvider was issued (t=%d) but reached the SDK", name, r.end, tpIss)
 		}
-		if len(seen) == 1 && seen[0].scope != tracerScope[op.U] {
-			bad("tracer_scope_lost", "span %s was recorded under scope %d, its tracer was obtained with scope %d (%+v)", name, seen[0].scope, tracerScope[op.U], scopes[tracerScope[op.U]])
+		if len(seen) == 1 && seen[0].scope != tracerScope[trSlot] {
+			bad("tracer_scope_lost", "span %s was recorded under scope %d, its tracer was obtained with scope %d (%+v)", name, seen[0].scope, tracerScope[trSlot], scopes[tracerScope[trSlot]])
 		}
 		if len(seen) == 1 && r.start < tpRet {
 			classes["span_started_before_install_returned_was_recorded"] = true
+		}
+		if len(seen) == 1 && r.start > tpRet {
+			// the span as it was made: start options and parent context
+			wantKind := trace.SpanKindInternal
+			if op.Kn >= 1 && op.Kn <= 5 {
+				wantKind = trace.SpanKind(op.Kn)
+				classes["span_with_kind_option_after_install"] = true
+			}
+			if seen[0].kind != wantKind {
+				bad("span_options_lost", "span %s (started t=%d, after SetTracerProvider returned at t=%d, through tracer handle %d obtained in phase %d) was started with span kind %v, the SDK recorded kind %v", name, r.start, tpRet, trSlot, tracerPhase[trSlot], wantKind, seen[0].kind)
+			}
+			if op.At && seen[0].sa != int64(id) {
+				bad("span_options_lost", "span %s (started t=%d, after SetTracerProvider returned at t=%d, through tracer handle %d obtained in phase %d) was started with attribute sa=%d, the SDK recorded sa=%d (-1: absent)", name, r.start, tpRet, trSlot, tracerPhase[trSlot], id, seen[0].sa)
+			}
+			if child {
+				classes["child_span_started_in_context_of_another_span_after_install"] = true
+				if tracerPhase[trSlot] < ph && tracerPhase[op.U] < ph && trSlot != op.U {
+					classes["child_span_through_a_different_older_tracer_handle"] = true
+				}
+				if seen[0].parent.SpanID() != r.outer.SpanID() || (r.outer.IsValid() && seen[0].sc.TraceID() != r.outer.TraceID()) {
+					bad("span_parent_lost", "span %s was started (t=%d, after SetTracerProvider returned at t=%d, through tracer handle %d) with the context returned by the Start of span sp%d (span context %s/%s): the SDK recorded parent span id %s, trace id %s", name, r.start, tpRet, trSlot, op.Sp, r.outer.TraceID(), r.outer.SpanID(), seen[0].parent.SpanID(), seen[0].sc.TraceID())
+				}
+			} else if seen[0].parent.IsValid() {
+				bad("span_parent_lost", "span %s was started with a background context, the SDK recorded parent span id %s", name, seen[0].parent.SpanID())
+			}
+		}
+	}
+	each(func(ph, g, i int, op Op) {
+		r := recs[ph][g][i]
+		if op.K != "span" || !r.done || r.skipped {
+			return
+		}
+		checkSpan(ph, op, r, op.Sp, op.U, false)
+		if op.In > 0 && strings.HasSuffix(r.note, "child started") {
+			checkSpan(ph, op, r, op.CSp, op.In-1, true)
 		}
 	})
 	for name := range ended {
@@ -1797,6 +2022,20 @@ func runOnce(c Case) ([]vk.Violation, map[string]bool) {
 	return vs, classes
 }
 
+// cmMeter: the meter slot callback k was registered through.
+func cmMeter(c Case, k int) int {
+	for _, phase := range c.Phases {
+		for _, ops := range phase {
+			for _, op := range ops {
+				if op.K == "reg" && op.CB == k {
+					return op.U
+				}
+			}
+		}
+	}
+	return -1
+}
+
 func collStart(cs []*collection, j int) int64 {
 	if j >= 0 && j < len(cs) {
 		return cs[j].start
@@ -1812,6 +2051,7 @@ func structure(c Case) (preUsedAfter, unregRace bool, cl map[string]bool) {
 	installG := map[string]map[int]bool{}
 	count := map[string]int{}
 	kindsSeen := map[int]bool{}
+	fromSpan := map[int]bool{}
 	for ph, phase := range c.Phases {
 		for g, ops := range phase {
 			for _, op := range ops {
@@ -1823,6 +2063,11 @@ func structure(c Case) (preUsedAfter, unregRace bool, cl map[string]bool) {
 					}
 				case "tracer":
 					tracerPh[op.D] = ph
+				case "span":
+					if op.TD > 0 {
+						tracerPh[op.TD-1] = ph
+						fromSpan[op.TD-1] = true
+					}
 				case "inst":
 					instPh[op.D] = ph
 					kindsSeen[op.Kd] = true
@@ -1846,9 +2091,61 @@ func structure(c Case) (preUsedAfter, unregRace bool, cl map[string]bool) {
 		}
 	}
 	ip, hasMP := installPh["set_mp"]
+	// scopes that own a placeholder instrument before the installation phase
+	meterSc := map[int]int{}
+	placeholderSc := map[int]bool{}
+	natSlot := map[int]bool{}
+	for ph, phase := range c.Phases {
+		for _, ops := range phase {
+			for _, op := range ops {
+				switch op.K {
+				case "meter":
+					meterSc[op.D] = op.S
+				case "inst":
+					if op.Nat {
+						natSlot[op.D] = true
+					} else if hasMP && ph <= ip {
+						placeholderSc[meterSc[op.U]] = true
+					}
+				}
+			}
+		}
+	}
+	for ph, phase := range c.Phases {
+		for _, ops := range phase {
+			for _, op := range ops {
+				if op.K != "reg" {
+					continue
+				}
+				nat := 0
+				for _, s := range op.Is {
+					if natSlot[s] {
+						nat++
+					}
+				}
+				pre := hasMP && ph < ip
+				if len(op.Is) == 0 {
+					cl["callback_without_instruments"] = true
+				}
+				if nat > 0 && pre {
+					cl["pre_install_callback_observes_instrument_obtained_directly_from_SDK"] = true
+				}
+				if nat > 0 && nat < len(op.Is) {
+					cl["callback_mixes_placeholder_and_SDK_instruments"] = true
+				}
+				if pre && !placeholderSc[meterSc[op.U]] {
+					cl["pre_install_callback_on_meter_without_placeholder_instruments"] = true
+					if nat > 0 {
+						cl["pre_install_callback_on_meter_without_placeholder_instruments:observes_SDK_instrument"] = true
+					}
+				}
+			}
+		}
+	}
 	tpPh, hasTP := installPh["set_tp"]
 	prPh, hasPR := installPh["set_prop"]
 	unregBefore := map[int]bool{}
+	unregAt := map[int][2]int{}
 	autoTracer := map[int]bool{} // placeholder tracers that started a span before installation while the flag was on
 	if c.AutoOn {
 		cl["auto:flag_on_at_start"] = true
@@ -1875,6 +2172,9 @@ func structure(c Case) (preUsedAfter, unregRace bool, cl map[string]bool) {
 					if hasTP && tracerPh[op.U] < tpPh && ph > tpPh {
 						preUsedAfter = true
 						cl["pre_install_tracer_used_after_install"] = true
+						if fromSpan[op.U] {
+							cl["tracer_from_pre_install_span.TracerProvider()_used_after_install"] = true
+						}
 						if autoTracer[op.U] {
 							cl["auto:tracer_that_started_auto_spans_used_after_install"] = true
 						}
@@ -1899,6 +2199,13 @@ func structure(c Case) (preUsedAfter, unregRace bool, cl map[string]bool) {
 						cl["instrument_created_on_pre_install_meter_concurrently_with_SetMeterProvider(program)"] = true
 					}
 				case "unreg":
+					if w, ok := unregAt[op.CB]; ok && w[0] == ph && w[1] != g {
+						cl["two_goroutines_Unregister_one_registration_in_the_same_phase"] = true
+						if hasMP && ph == ip {
+							cl["two_goroutines_Unregister_one_registration_while_SetMeterProvider_runs(program)"] = true
+						}
+					}
+					unregAt[op.CB] = [2]int{ph, g}
 					if hasMP && cbPh[op.CB] < ip && ph < ip {
 						unregBefore[op.CB] = true
 						cl["callback_unregistered_before_install"] = true
@@ -1985,8 +2292,8 @@ func run(c Case) ([]vk.Violation, vk.Info) {
 func TestGlobalDelegation(t *testing.T) {
 	vk.Run(t, vk.Spec[Case]{
 		Property: "C16", Check: "global_delegation",
-		Rule: "generated five-phase concurrent programs over the public otel API, each executed twice from pristine globals: phase 0 (1-2 goroutines, before installation) obtains provider / propagator handles, meters and tracers (4 scopes with version / schema URL / attributes), instruments of all 14 kinds (shared identities, option callbacks), registers multi-instrument callbacks and unregisters some; " +
-			"phase 1 (1-7 goroutines) does the same plus measurements, spans, Inject/Extract, Collect while 1-3 goroutines each call otel.SetMeterProvider / SetTracerProvider / SetTextMapPropagator with one recording SDK (1-3 ManualReaders, recording SpanProcessor, recording propagator), 50% of the programs with a 'storm' (a meter with up to 10 instruments and 8 callbacks that a dedicated goroutine unregisters while the SDK is installed); phase 2 (1-4 goroutines) continues through old and new handles; phase 3 uses every handle once more and collects; phase 4 (>= 2 readers) lets every reader collect concurrently while the callbacks yield/sleep inside; about 1 instrument in 12 has a name the SDK refuses (callbacks on it are rejected at installation); in 40% of the programs the installed provider is a wrapper of the harness that refuses marked instruments (about 1 in 12) with (nil, err) and callbacks touching them; about 1 measurement in 5 carries 0 / an extreme / a float special value in a data point of its own, half of the callbacks also observe 0; in 40% of the programs the auto-instrumentation flag is on from the start (spans through placeholder tracers before installation are auto-SDK spans) and switched off at a generated phase barrier or never; self-installs (SetX(GetX())) anywhere; " +
+		Rule: "generated five-phase concurrent programs over the public otel API, each executed twice from pristine globals: phase 0 (1-2 goroutines, before installation) obtains provider / propagator handles, meters and tracers (4 scopes with version / schema URL / attributes; tracers also from the TracerProvider() of a placeholder span), instruments of all 14 kinds (shared identities, option callbacks), registers callbacks over any subset of a meter's observables (also none; placeholders and, 1 in 6, instruments obtained directly from the not yet installed SDK; in half of the programs one 'bare' scope whose placeholder meter owns no placeholder instrument at all, only SDK instruments and callbacks) and unregisters some; " +
+			"phase 1 (1-7 goroutines) does the same plus measurements, spans, Inject/Extract, Collect while 1-3 goroutines each call otel.SetMeterProvider / SetTracerProvider / SetTextMapPropagator with one recording SDK (1-3 ManualReaders, recording SpanProcessor, recording propagator), 50% of the programs with a 'storm' (a meter with up to 10 instruments and 8 callbacks that a dedicated goroutine unregisters while the SDK is installed); phase 2 (1-4 goroutines) continues through old and new handles; phase 3 uses every handle once more and collects; phase 4 (>= 2 readers) lets every reader collect concurrently while the callbacks yield/sleep inside; about 1 instrument in 12 has a name the SDK refuses (callbacks on it are rejected at installation); in 40% of the programs the installed provider is a wrapper of the harness that refuses marked instruments (about 1 in 12) with (nil, err) and callbacks touching them; about 1 measurement in 5 carries 0 / an extreme / a float special value in a data point of its own, half of the callbacks also observe 0; in 40% of the programs the auto-instrumentation flag is on from the start (spans through placeholder tracers before installation are auto-SDK spans) and switched off at a generated phase barrier or never; self-installs (SetX(GetX())) anywhere; in 70% of the programs the installed MeterProvider is a wrapper that counts, per callback of the program, the RegisterCallback / Unregister calls reaching the SDK; spans carry generated start options (kind, attribute), a third start a child span in their context through any tracer handle; in a third of the programs goroutines of one phase Unregister the same Registration concurrently; " +
 			"non-trivial = a handle obtained before the installation is used after it AND an Unregister of a pre-install callback runs in the same phase as SetMeterProvider on another goroutine; distinct = distinct case encodings",
 		Quick: 1000, Thorough: 15000,
 		Gen: gen, Run: run, Repeat: 200,
